@@ -200,6 +200,48 @@ def _chunk(args):
     return agg
 
 
+def _chunk_forked(args):
+    """Run one chunk in a child forked from this (pristine) worker: whatever process-global state the library under
+    test accumulates stays confined to the chunk, whose composition and order depend only on the run indices - so a
+    verdict never depends on which worker happened to execute which chunk before."""
+    import pickle
+    r, w = os.pipe()
+    pid = os.fork()
+    if pid == 0:
+        code = 0
+        try:
+            try:                                   # die with the worker (hard wall limit terminates workers)
+                import ctypes
+                ctypes.CDLL(None).prctl(1, 9)
+            except Exception:
+                pass
+            os.close(r)
+            data = pickle.dumps(_chunk(args), protocol=pickle.HIGHEST_PROTOCOL)
+            with os.fdopen(w, "wb") as f:
+                f.write(data)
+        except BaseException:
+            code = 3
+            try:
+                traceback.print_exc()
+            except Exception:
+                pass
+        finally:
+            os._exit(code)
+    os.close(w)
+    chunks = []
+    with os.fdopen(r, "rb") as f:
+        while True:
+            b = f.read(1 << 20)
+            if not b:
+                break
+            chunks.append(b)
+    _, status = os.waitpid(pid, 0)
+    data = b"".join(chunks)
+    if not data:
+        raise RuntimeError("chunk child exited without a result (status %r)" % (status,))
+    return pickle.loads(data)
+
+
 def _trim(sc, limit=2500):
     s = dumps(sc)
     if len(s) <= limit:
@@ -334,7 +376,7 @@ def run_check(prop, tier, vseed, nruns=None, workers=None, write_evidence=True, 
     harness_err = []
     ctx = multiprocessing.get_context("fork")
     ex = cf.ProcessPoolExecutor(max_workers=workers, mp_context=ctx)
-    futs = {ex.submit(_chunk, (prop, tier, vseed, c)) for c in chunks if c}
+    futs = {ex.submit(_chunk_forked, (prop, tier, vseed, c)) for c in chunks if c}
     pending = set(futs)
     hard = wall + 180.0
     while pending:
